@@ -233,6 +233,9 @@ pub enum Op {
     /// the file lengthened (sparsely) and its end marker moved to this offset, the store reopened.
     /// Everything stored before keeps its offset; what is stored next lies beyond.
     Inflate(u64),
+    /// like `Inflate`, to the offset that lies exactly this many bytes above the event with this
+    /// id (the next event stored then shares that event's offset modulo the distance)
+    InflateOnto(u64, B32),
 }
 
 impl Op {
@@ -266,6 +269,7 @@ impl Op {
             Op::Starve => "starve",
             Op::Fsize(_) => "fsize",
             Op::Inflate(_) => "inflate",
+            Op::InflateOnto(..) => "inflate_onto",
         }
     }
     pub fn is_modifier(&self) -> bool {
@@ -564,6 +568,7 @@ impl Op {
             Op::Starve => "starve".into(),
             Op::Fsize(m) => format!("fsize mode={m}"),
             Op::Inflate(e) => format!("inflate end={e}"),
+            Op::InflateOnto(d, id) => format!("inflate_onto distance={d} id={}", hex(id)),
         }
     }
 
@@ -600,6 +605,7 @@ impl Op {
             "starve" => Op::Starve,
             "fsize" => Op::Fsize(kv.get("mode")?.parse().map_err(e)?),
             "inflate" => Op::Inflate(kv.get("end")?.parse().map_err(e)?),
+            "inflate_onto" => Op::InflateOnto(kv.get("distance")?.parse().map_err(e)?, unhex32(kv.get("id")?)?),
             x => return Err(format!("unknown op {x}")),
         })
     }
